@@ -129,6 +129,18 @@ pub fn mutate_field(doc: &Value, pointer: &str, p: &mut Prng) -> Option<(Value, 
             t.pop();
             Some(Value::String(t))
         }
+        (Value::String(s), 1) if !s.is_empty() => {
+            // one character replaced by a multi-byte one (a name or hash that is no longer ASCII)
+            mutation = "string-non-ascii-char".to_string();
+            let mut cs: Vec<char> = s.chars().collect();
+            let i = p.usize(cs.len());
+            cs[i] = ['\u{e9}', '\u{4e2d}', '\u{1f600}'][p.usize(3)];
+            Some(Value::String(cs.into_iter().collect()))
+        }
+        (Value::String(s), 2) if !s.is_empty() => {
+            mutation = "string-emptied".to_string();
+            Some(Value::String(String::new()))
+        }
         (Value::String(s), _) => {
             mutation = "string-changed".to_string();
             Some(Value::String(format!("{s}x")))
